@@ -59,6 +59,13 @@ let line l =
        let idom = Stdlib.List.map (function A "-" -> None | x -> Some (num_n x)) ds in
        if SsaCheck.ssa_check (r_cfg c) idom then "(valid)" else "(invalid)"
      | _ -> "(badline)")
+  | "constcond" ->
+    (* constcond (cfg ...) : the findings of the constant-conditional pass, by position of the if statement *)
+    let rest = Stdlib.String.sub l (sp1 + 1) (Stdlib.String.length l - sp1 - 1) in
+    let c = r_cfg (parse_sexp rest) in
+    let one (((bi, si), lab), msg) =
+      L [A (string_of_int (int_of_n bi)); A (string_of_int (int_of_n si)); A (hex_of_ident lab); A (hex_of_ident msg)] in
+    show_sexp (L (A "cc" :: Stdlib.List.map one (ConstCond.cc_findings c)))
   | _ -> "(unknown-command)"
 
 let () = each_line line
